@@ -12,7 +12,7 @@ func init() { Registry["C04"] = checkC04 }
 // C04 — untrusted container input never crashes, hangs or balloons memory (structural part).
 func checkC04(c *Ctx, r *Report) {
 	r.Explanation = "Over the functions reachable (VTA call graph) from DecodeFile/DecodeFileSR/DecodeBox*/every registered decoder/every Box and composite Info, Encode, EncodeSW, Size: " +
-		"R1 no explicit panic/os.Exit/log.Fatal is reachable; G3X on the decode side an index that counts up to the length of one slice is used on another only under a dominating test that the other is at least as long; G1 every make() whose length or capacity is an untrusted value of more than 16 bits (reader results, binary.BigEndian, BoxHeader.Size on the reader path) " +
+		"R1 no explicit panic/os.Exit/log.Fatal is reachable; G-OVF in packages bits and mp4 a bounds test that compares a sum with a parameter carrying 63 or more untrusted bits (ReadBytes is handed the 64-bit box size) is preceded by an upper bound on that parameter (the overflow-safe form compares with a difference); G9 in loops `for i < len(s)-k` every element i+c of s that is read has c <= k and every slice s[…:i+c] has c-1 <= k, or its own test against the length; G3X on the decode side an index that counts up to the length of one slice is used on another only under a dominating test that the other is at least as long; G1 every make() whose length or capacity is an untrusted value of more than 16 bits (reader results, binary.BigEndian, BoxHeader.Size on the reader path) " +
 		"is dominated by one arm of a comparison on a value with the same taint root; G2 every cycle of every data-driven loop passes an error test of the sticky-error reader or a bounded counter test; " +
 		"G6 io.ReadAll is applied only to an io.LimitReader; G3 a slice made in a function and indexed there by a loop counter is indexed below the length it was made with; G4 every constant index or constant slice bound on a slice is dominated by a test of its length, is on a slice long enough by construction, or rests on a named invariant of the decoded structure that is itself checked (appended at least once, field always stored with >= n bytes, two slices filled together, Type() non-empty); G8 an untrusted value used as an index is compared with the length of the slice first (or has too few bits to exceed a fixed table); G10 a loop cursor advanced by an untrusted length is wider than that length; G5 every integer division by a non-constant is dominated by a non-zero test of the divisor or rests on a checked invariant; G-NIL a field holding an optional child box (set only by AddChild when the child exists) is dereferenced only after a nil test of it (also: a fresh value stored to it, correlated tests, or — for fields of the receiver — a nil test at every repository call site); the result of a getter that can return nil (LastSegment, LastFragment, GetTrex, …) is dereferenced only after a nil test, except in File.AddChild where the checked invariant (startSegmentIfNeeded guarantees a segment, a fragment is added before it is used, an mdat follows a moof) stands; G-ASSERT an unchecked type assertion on a box stands under a test of the box type name for which every registered decoder returns exactly the asserted type, or on the result of a call that returns only that type; O-MDAT in a fragmented file the file decoders reject an mdat that does not directly follow a moof (the invariant File.AddChild relies on); O-ERR in the library packages every error returned by a callee is tested, returned, wrapped or merged on every path that does not itself end in an error (14 accepted explicit discards on freshly created boxes), so a decoder cannot hand back a structure after a callee failed; G-SIZE DecodeBoxSR compares the unsigned 64-bit box size itself with the remaining bytes before any decoder runs. Decides named necessary conditions of crash/hang/balloon freedom; does not decide index expressions with a computed index (other than G3 loop counters), nil dereferences other than of optional child fields, " +
 		"nor that a comparison's arithmetic is right."
@@ -39,6 +39,13 @@ func checkC04(c *Ctx, r *Report) {
 		"bits.FixedSliceReader.ReadPossiblyZeroTerminatedString:(FixedSliceReader).slice[(int):(FixedSliceReader).pos]": invOnlyCallerURL,
 		"bits.FixedSliceReader.RemainingBytes:(FixedSliceReader).slice[(FixedSliceReader).pos:]":                        invCursorWithinLen})
 	ruleG10(c, r, scope)
+	ruleG9(c, r, scope)
+	if n := ruleGOVF(c, r, func(f *ssa.Function) bool {
+		return strings.HasPrefix(SSAFuncName(f), "bits.") || strings.HasPrefix(SSAFuncName(f), "mp4.")
+	}); n < 1 {
+		r.Undecided("G-OVF", "scope", "", "no bounds test on a sum with a parameter found in packages bits and mp4 (FixedSliceReader.SkipBytes expected)")
+	}
+	requireFixture(r, "G-OVF", "sumReader.take", func(fc *Ctx, s *Report) { ruleGOVF(fc, s, nil) })
 	r.Floor("G8", 8)
 	ruleG5(c, r, scope, map[string]func(*Ctx, *Report, string) bool{"mp4.SencBox.ParseReadBox:/ (SencBox).SampleCount": invSencSampleCount})
 	ruleG6(c, r)
